@@ -28,7 +28,7 @@ from harness.pool import pmap
 
 PROP = "C16"
 INVS = ["TypeOK", "EdgeTables", "L2_FaceDiff", "L2_NodeDiff", "Laws", "TracerReadable"]
-LEAD_NAMES = ["time", "lev"]
+LEAD_NAMES = ["time", "lev", "ens"]
 TOL_DIST = 1e-9  # absolute, radians on the unit sphere
 TOL_REL = 1e-8  # gradient * reference distance against the exact difference
 SMALL_LON = [0.0, 12.0, 25.0, 9.0, -8.0, 17.0]
@@ -62,24 +62,37 @@ def gen_scope(ctx, tag, nnode, maxfaces, sizes, npat=1, invs=INVS):
     return out
 
 
-def shape_case(cid, k, mesh, n_node, xrows4, yrows4, **extra):
-    rank = 1 + k % 3
+LAYOUTS = []  # the layouts TLC enumerated (AggLayout.tla, shared with C17): position of the grid dim, other sizes
+
+
+def shape_case(cid, k, mesh, n_node, xrows4, yrows4, layout=None, **extra):
+    """Layout (position of the grid dimension in rank 1..4 data, pairwise different other sizes), dtype and
+    denominator by the case counter.  Rows are canonical: one per C-order index of the other dimensions."""
+    lay = layout if layout is not None else LAYOUTS[k % len(LAYOUTS)]
     dtype = ["int", "float"][(k // 3) % 2]
     den = 2 if (dtype == "float" and (k // 6) % 2 == 1) else 1
-    lead = [[], [3], [2, 2]][rank - 1]
-    nrow = [1, 3, 4][rank - 1]
+    lead = list(lay["lead"])
+    nrow = 1
+    for x in lead:
+        nrow *= x
     nf = len(mesh)
+
+    def cyc(rows4, n):
+        src = [list(r[:n]) for r in rows4]
+        return [src[j % 4][(j // 4) % n :] + src[j % 4][: (j // 4) % n] for j in range(nrow)]
+
     c = {
         "prop": PROP,
         "id": cid,
         "k": k,
         "mesh": mesh,
         "n_node": n_node,
-        "xrows": [list(r) for r in xrows4[:nrow]],
-        "yrows": [list(r[:nf]) for r in yrows4[:nrow]],
+        "xrows": cyc(xrows4, n_node),
+        "yrows": cyc(yrows4, nf),
         "den": den,
         "dtype": dtype,
         "lead": lead,
+        "pos": lay["pos"],
         "via": "topology",
     }
     c.update(extra)
@@ -249,8 +262,13 @@ def record_case(case):
     import numpy as np
 
     ux = hux.import_ux()
-    rec = {"id": case["id"], "den": case["den"], "dtype": case["dtype"], "lead": case["lead"], "via": case["via"]}
+    rec = {"id": case["id"], "den": case["den"], "dtype": case["dtype"], "lead": case["lead"], "pos": case["pos"], "via": case["via"]}
     rec["lead_dims"] = LEAD_NAMES[: len(case["lead"])]
+    pos = case["pos"]
+
+    def ins(seq, x):
+        return list(seq[:pos]) + [x] + list(seq[pos:])
+
     raw = {}
     try:
         g, o = build(case)
@@ -297,6 +315,7 @@ def record_case(case):
 
     def arr(rows_, n):
         a = np.array(rows_, dtype=np.int64).reshape(lead + [n])
+        a = np.ascontiguousarray(np.moveaxis(a, -1, pos))  # the grid axis at its position in this layout
         return (a / case["den"]).astype(npdt) if case["den"] != 1 else a.astype(npdt)
 
     # distances
@@ -311,7 +330,7 @@ def record_case(case):
             rec.setdefault("dist_err", []).append("%s: %s: %s" % (name, type(e).__name__, str(e)[:120]))
     rec["dist_dims"] = dist_dims
 
-    def call(uxda, fn):
+    def call(uxda, fn, with_singles):
         out = fn(uxda)
         vals = np.asarray(out.values, dtype=float)
         meta = {
@@ -320,18 +339,22 @@ def record_case(case):
             "cls": type(out).__name__,
             "same": bool((out.uxgrid is g) or (out.uxgrid == g)),
         }
-        flat = vals.reshape(-1, vals.shape[-1]) if vals.ndim else vals.reshape(1, 1)
-        # the same operation on every leading index alone
+        # canonical view (one row per index of the other dims) only if the result has the shape this layout demands;
+        # whether it does is judged by TLC from dims / shape, here it only gates the per-row numeric tests
+        canon = None
+        if list(vals.shape) == ins(lead, n_edge):
+            canon = np.moveaxis(vals, pos, -1).reshape(-1, n_edge)
         singles = []
-        src = np.asarray(uxda.values)
-        srcflat = src.reshape(-1, src.shape[-1])
-        for j in range(srcflat.shape[0]):
-            one = ux.UxDataArray(srcflat[j], dims=[uxda.dims[-1]], uxgrid=g, name="v")
-            singles.append(np.asarray(fn(one).values, dtype=float).ravel())
-        return meta, flat, singles
+        if with_singles:
+            src = np.asarray(uxda.values)
+            srcflat = np.moveaxis(src, pos, -1).reshape(-1, src.shape[pos])
+            for j in range(srcflat.shape[0]):
+                one = ux.UxDataArray(srcflat[j], dims=[uxda.dims[pos]], uxgrid=g, name="v")
+                singles.append(np.asarray(fn(one).values, dtype=float).ravel())
+        return meta, {"vals": vals, "canon": canon, "singles": singles}
 
-    xda = ux.UxDataArray(arr(rec["xrows"], o["n_node"]), dims=rec["lead_dims"] + ["n_node"], uxgrid=g, name="v")
-    yda = ux.UxDataArray(arr(rec["yrows"], n_face), dims=rec["lead_dims"] + ["n_face"], uxgrid=g, name="v")
+    xda = ux.UxDataArray(arr(rec["xrows"], o["n_node"]), dims=ins(rec["lead_dims"], "n_node"), uxgrid=g, name="v")
+    yda = ux.UxDataArray(arr(rec["yrows"], n_face), dims=ins(rec["lead_dims"], "n_face"), uxgrid=g, name="v")
     todo = [
         ("ndiff", xda, lambda a: a.difference(destination="edge")),
         ("fdiff", yda, lambda a: a.difference(destination="edge")),
@@ -342,9 +365,9 @@ def record_case(case):
         todo = [t for t in todo if t[0] in ("fdiff", "grad")]  # one-ended edges: node differences are not defined
     for key, da, fn in todo:
         try:
-            meta, flat, singles = call(da, fn)
+            meta, r_ = call(da, fn, key == "gradn")
             rec[key] = meta
-            raw[key] = (flat, singles)
+            raw[key] = r_
         except Exception as e:  # noqa - recorded and judged (Accepts)
             rec[key] = {"err": "%s: %s" % (type(e).__name__, str(e)[:160])}
     return {"rec": rec, "raw": raw}
@@ -429,42 +452,51 @@ def numeric_stage(item, pairs, geos, case):
         rec["supplied_dv"] = [1000 + 3 * e for e in range(len(E))]
         rec["supplied_dc"] = [2000 + 5 * e for e in range(len(E))]
         rec["src_edges"] = case["_src_edges"]
+    import numpy as np
+
     for key in ("ndiff", "fdiff"):
         if key in raw:
-            flat, singles = raw[key]
-            rec[key]["v"] = [[proj(x) for x in row.tolist()] for row in flat]
-            rec[key]["indep"] = all(rows_equal(flat[j].tolist(), singles[j].tolist(), 1e-12) for j in range(len(singles)))
+            rec[key]["flat"] = [proj(x) for x in raw[key]["vals"].ravel().tolist()]  # the result in its own C order
     if "grad" in raw:
-        flat, singles = raw["grad"]
-        ok_len = flat.shape[-1] == len(E)
-        rec["grad"]["v"] = [
-            [
-                # tolerance on gradient * reference distance: 1e-8 relative, widened to what 1e-9 rad on the distance allows
-                proj(x * d_ref[k], max(TOL_REL, 2.0 * TOL_DIST / d_ref[k]), maxden=2) if (ok_len and len(pairs[k]) == 2 and d_ref[k] > 0) else proj(x)
-                for k, x in enumerate(row.tolist())
-            ]
-            for row in flat
-        ]
-        rec["grad"]["indep"] = all(rows_equal(flat[j].tolist(), singles[j].tolist(), 1e-12) for j in range(len(singles)))
+        vals = raw["grad"]["vals"]
+        dims = rec["grad"]["dims"]
+        # recorded: gradient * reference distance on interior edges (1e-8 relative, widened to what 1e-9 rad on the
+        # distance allows), the gradient itself on boundary edges; the edge axis is found by its label
+        ax = dims.index("n_edge") if "n_edge" in dims else None
+        if ax is not None and vals.shape[ax] == len(E):
+            inter = [len(pairs[k]) == 2 and d_ref[k] > 0 for k in range(len(E))]
+            mul = np.array([d_ref[k] if inter[k] else 1.0 for k in range(len(E))])
+            tol = np.array([max(TOL_REL, 2.0 * TOL_DIST / d_ref[k]) if inter[k] else 0.0 for k in range(len(E))])
+            mden = np.array([2 if inter[k] else 4096 for k in range(len(E))])
+            shp = [1] * vals.ndim
+            shp[ax] = len(E)
+            prod = vals * mul.reshape(shp)
+            tol_b = np.broadcast_to(tol.reshape(shp), vals.shape).ravel().tolist()
+            md_b = np.broadcast_to(mden.reshape(shp), vals.shape).ravel().tolist()
+            rec["grad"]["flat"] = [proj(x, t, maxden=int(m)) for x, t, m in zip(prod.ravel().tolist(), tol_b, md_b)]
+        else:
+            rec["grad"]["flat"] = [proj(x) for x in vals.ravel().tolist()]
     if "gradn" in raw:
-        flat, singles = raw["gradn"]
-        gflat = raw["grad"][0] if "grad" in raw else None
-        unit, propo, indep = [], [], []
-        for j in range(flat.shape[0]):
-            row = flat[j].tolist()
-            s = math.fsum(x * x for x in row)
-            unit.append(close(s, 1.0, 1e-9))
-            if gflat is not None and gflat.shape == flat.shape:
-                grow = gflat[j].tolist()
-                nrm = math.sqrt(math.fsum(x * x for x in grow))
-                mx = max([abs(x) for x in grow] + [1e-300])
-                propo.append(all(close(x * nrm, y, 1e-9 * max(1.0, mx)) for x, y in zip(row, grow)))
-            else:
-                propo.append(False)
-            indep.append(rows_equal(row, singles[j].tolist(), 1e-9))
-        tot = math.fsum(x * x for r_ in flat.tolist() for x in r_)
+        vals = raw["gradn"]["vals"]
+        canon = raw["gradn"]["canon"]
+        singles = raw["gradn"]["singles"]
+        gcanon = raw["grad"]["canon"] if "grad" in raw else None
+        nrow = len(rec["yrows"])
+        unit, propo, indep = [False] * nrow, [False] * nrow, [False] * nrow
+        if canon is not None and canon.shape[0] == nrow:
+            for j in range(nrow):
+                row = canon[j].tolist()
+                s = math.fsum(x * x for x in row)
+                unit[j] = close(s, 1.0, 1e-9)
+                if gcanon is not None and gcanon.shape == canon.shape:
+                    grow = gcanon[j].tolist()
+                    nrm = math.sqrt(math.fsum(x * x for x in grow))
+                    mx = max([abs(x) for x in grow] + [1e-300])
+                    propo[j] = all(close(x * nrm, y, 1e-9 * max(1.0, mx)) for x, y in zip(row, grow))
+                indep[j] = j < len(singles) and rows_equal(row, singles[j].tolist(), 1e-9)
+        tot = math.fsum(x * x for x in vals.ravel().tolist())
         rec["gradn"].update(
-            {"v": 1, "unit": unit, "prop": propo, "indep": indep, "whole": close(tot, 1.0, 1e-9), "zero": [[x == 0.0 for x in r_] for r_ in flat.tolist()]}
+            {"flat": 1, "unit": unit, "prop": propo, "indep": indep, "whole": close(tot, 1.0, 1e-9), "zeroflat": [x == 0.0 for x in vals.ravel().tolist()]}
         )
     return rec
 
@@ -542,9 +574,12 @@ def process(ctx, cases, items):
     for rid, cl in failed.items():
         c = {k: v for k, v in by_id[rid].items() if not k.startswith("_")}
         for clause in sorted(cl):
-            sig = {"scope": rid.split(":")[0], "rank": len(c["lead"]) + 1, "via": c["via"]}
+            sig = {"scope": rid.split(":")[0], "rank": len(c["lead"]) + 1, "pos": c["pos"], "via": c["via"]}
             if clause.startswith("Norm") and "WholeArrayNorm" in sigs.get(rid, ()):
                 sig["shape"] = "WholeArrayNorm"
+            layout_clause = clause in ("Accepts", "GradZeroOnBoundary") or clause.endswith("Value") or clause.startswith(("Shape_", "Norm", "DualPartialFaceDiff", "DualPartialGrad"))
+            if layout_clause and "GridAxisNotLast" in sigs.get(rid, ()):
+                sig["shape"] = "GridAxisNotLast"  # decided by TLC: every operator raised or ran along the last axis
             if clause in ("NodeDistances", "FaceDistances", "GradValue") and "DistancesSwapped" in sigs.get(rid, ()):
                 sig["shape"] = "DistancesSwapped"
             ctx.violation(rid, clause, detail={"failed": sorted(cl), "dist_err": next((f.get("dist_err") for f in full if f["id"] == rid), None)}, replay=c, sig=sig)
@@ -565,7 +600,7 @@ NAMES = [
 ]
 
 
-def cat_case(e, cid, k, rng, via="topology", shuffle=True):
+def cat_case(e, cid, k, rng, via="topology", shuffle=True, layout=None):
     faces = [list(f) for f in e["faces"]]
     if shuffle:
         faces = [f[j:] + f[:j] for f in faces for j in [rng.randrange(len(f))]]
@@ -578,7 +613,7 @@ def cat_case(e, cid, k, rng, via="topology", shuffle=True):
     if k % 5 == 4:
         yrows4[1] = [2] * nf  # a constant field among the rows: zero gradient, normalisation undefined there
     return shape_case(
-        cid, k, faces, n, xrows4, yrows4, lon=[p[0] for p in lonlat], lat=[p[1] for p in lonlat], nodes=[list(v) for v in e["nodes"]], via=via
+        cid, k, faces, n, xrows4, yrows4, layout=layout, lon=[p[0] for p in lonlat], lat=[p[1] for p in lonlat], nodes=[list(v) for v in e["nodes"]], via=via
     )
 
 
@@ -706,20 +741,29 @@ def run(ctx):
         what="closed form of GeoDescr under the exact shrink map, M = 1..3, all lattice a, b, c",
     )
 
+    # the position of the grid dimension: layouts enumerated (and their laws proved) by TLC, shared with C17
+    from checks.c17 import gen_layouts
+
+    LAYOUTS[:] = gen_layouts(ctx)
+
     def add(tag, states, n_node, pick=None):
         idx = range(len(states)) if pick is None or pick >= len(states) else sorted(rng.sample(range(len(states)), pick))
         for k in idx:
             mesh, xr_, yr_ = states[k]
             cases.append(shape_case("%s:%d" % (tag, k), k, mesh, n_node, xr_, yr_, lon=SMALL_LON[:n_node], lat=SMALL_LAT[:n_node]))
 
-    add("s4f2", gen_scope(ctx, "s4f2", 4, 2, [3, 4], npat=2 if thorough else 1), 4, pick=None if thorough else 1500)
+    add("s4f2", gen_scope(ctx, "s4f2", 4, 2, [3, 4], npat=2 if thorough else 1), 4, pick=None if thorough else 1000)
     if thorough:
-        add("s5f2", gen_scope(ctx, "s5f2", 5, 2, [3, 4]), 5, pick=10000)
-        add("s5f2p", gen_scope(ctx, "s5f2p", 5, 2, [5], invs=["TypeOK", "EdgeTables", "L2_FaceDiff", "TracerReadable"]), 5, pick=4000)
-        add("s4f3", gen_scope(ctx, "s4f3", 4, 3, [3, 4], invs=["TypeOK", "EdgeTables", "L2_FaceDiff"]), 4, pick=6000)
+        add("s5f2", gen_scope(ctx, "s5f2", 5, 2, [3, 4]), 5, pick=6000)
+        add("s5f2p", gen_scope(ctx, "s5f2p", 5, 2, [5], invs=["TypeOK", "EdgeTables", "L2_FaceDiff", "TracerReadable"]), 5, pick=2500)
+        add("s4f3", gen_scope(ctx, "s4f3", 4, 3, [3, 4], invs=["TypeOK", "EdgeTables", "L2_FaceDiff"]), 4, pick=4000)
     else:
-        add("s5f2", gen_scope(ctx, "s5f2", 5, 2, [3]), 5, pick=700)
-        add("s4f3", gen_scope(ctx, "s4f3", 4, 3, [3], invs=["TypeOK", "EdgeTables", "L2_FaceDiff", "TracerReadable"]), 4, pick=800)
+        add("s5f2", gen_scope(ctx, "s5f2", 5, 2, [3]), 5, pick=500)
+        add("s4f3", gen_scope(ctx, "s4f3", 4, 3, [3], invs=["TypeOK", "EdgeTables", "L2_FaceDiff", "TracerReadable"]), 4, pick=500)
+    # every layout on one fixed partial mixed mesh (boundary and interior edges), all six quantities
+    e0 = catalog.entries(name="cuboctahedron", rot=0, cut=3)[0]
+    for i, lay in enumerate(LAYOUTS):
+        cases.append(cat_case(e0, "lay:%d" % i, i, rng, layout=lay))
     ctx.exhaustive = True
     n_small = len(cases)
     cases += catalogue_cases(rng, thorough)
@@ -779,12 +823,15 @@ def run(ctx):
     ctx.note("grids_n_face_gt_n_node", more_faces)
     ctx.note("grids_n_face_lt_n_node", more_nodes)
     ctx.note("routes", sorted({c["via"] for c in cases}))
+    ctx.note("layouts_enumerated_by_tlc", len(LAYOUTS))
+    ctx.note("layouts_replayed", len({(c["pos"], tuple(c["lead"])) for c in cases}))
+    ctx.note("cases_grid_axis_two_or_more_from_last", sum(1 for c in cases if len(c["lead"]) - c["pos"] >= 2))
     ctx.rule = (
         "TLC enumerates every manifold face-node table of the scope with node and face data rows (EdgeScope.tla), proves the "
         "transcribed difference kernels on the transcribed edge / edge_face tables equal to the declarative pairings and the "
         "laws of the difference, dumps the states; each state (and catalogue polyhedra closed/cut, random planar meshes, "
         "synthetic MPAS sources) is replayed: edge_node_distances, edge_face_distances, difference of node and face data, "
-        "gradient, normalised gradient, with rank 1..3 and int/float data. JudgeEdge.tla emits the face pair of each edge and the "
+        "gradient, normalised gradient, with the grid dimension at every position of rank 1..4 data (layouts enumerated by TLC, AggLayout.tla; other dims of pairwise different sizes; every layout also on one fixed partial mixed mesh) and int/float data. JudgeEdge.tla emits the face pair of each edge and the "
         "exact geodesic descriptor of each lattice edge, the harness compares distances to 1e-9, then JudgeEdge.tla decides "
         "pairings, exact differences, zero patterns, normalisable rows, shapes. An evaluation = one (case, quantity) of the six "
         "quantities. Non-trivial = distinct (table, face data, dtype, route) with >= 2 faces."
@@ -797,8 +844,11 @@ def run(ctx):
                 "edges": r["edges"][:6],
                 "edge_faces": r.get("edge_faces", [])[:6],
                 "yrows": [y[:6] for y in r.get("yrows", [])[:2]],
-                "fdiff[p,q,flags]": (r.get("fdiff", {}).get("v") or [[None]])[0][:6],
-                "grad*dist": (r.get("grad", {}).get("v") or [[None]])[0][:6] if isinstance(r.get("grad", {}).get("v"), list) else None,
+                "pos": r.get("pos"),
+                "lead": r.get("lead"),
+                "fdiff dims/shape": [r.get("fdiff", {}).get("dims"), r.get("fdiff", {}).get("shape")],
+                "fdiff flat[p,q,flags]": (r.get("fdiff", {}).get("flat") or [None])[:6],
+                "grad*dist flat": (r.get("grad", {}).get("flat") or [None])[:6],
                 "fd_ok": r.get("fd_ok", [])[:6],
             }
         )
